@@ -542,6 +542,28 @@ example : Block.to_bytes [9] [7] 5 (-9223372036854775808) (-1) =
     some ([255, 255, 255, 255] ++ [128, 0, 0, 0, 0, 0, 0, 0] ++ [0, 0, 0, 5] ++ [7] ++ [9]) ∧
     Block.to_bytes [] [] 0 0 (2 ^ 31) = none := by decide
 
+/-- block.py, the dict forms, REGENERATED (`Generated.TlEngine.Block.to_dict / from_dict / init_dyn`, `BlockIdS.init / init_dyn / to_dict /
+from_dict` from `BlockIdExt` / `BlockId`): a Python dict with the str keys `workchain … file_hash` is `dictVal d` (the model's `BlockDict`; hashes
+as `.hex()` strings).  For ALL ids / dicts: `to_dict` of both classes is the model's `toDict`; `from_dict` is the model's `fromDict` - `__init__` read
+with dynamically typed arguments: `isinstance(root_hash, str)` → `bytes.fromhex`, an absent hash builds no `BlockIdExt`, extra keys are ignored
+by `BlockId.from_dict`; hence `from_dict(to_dict(x)) = x` for both classes of the regenerated code; a dict WITHOUT `shard` gets the masterchain shard
+`-2^63` (`if shard is None`). -/
+theorem c14_src_blockid_dict (b : BlockIdExt) (s : BlockId) (d : BlockDict) (w q : Int) :
+    Block.to_dict b.fileHash b.rootHash b.seqno b.shard b.workchain = some (dictVal b.toDict) ∧
+    Block.from_dict (dictVal d) = BlockIdExt.fromDict d ∧
+    BlockIdS.to_dict s.seqno s.shard s.workchain = some (dictVal s.toDict) ∧
+    BlockIdS.from_dict (dictVal d) = some (BlockId.fromDict d) ∧
+    Block.from_dict (dictVal b.toDict) = some b ∧ BlockIdS.from_dict (dictVal s.toDict) = some s ∧
+    BlockIdS.from_dict (.obj none [(kWorkchain, .int w), (kSeqno, .int q)]) = some ⟨w, -9223372036854775808, q⟩ := by
+  refine ⟨block_to_dict_eq b, block_from_dict_eq d, blockid_to_dict_eq s, blockid_from_dict_eq d, ?_, ?_, ?_⟩
+  · rw [block_from_dict_eq]; exact blockIdExt_dict b
+  · rw [blockid_from_dict_eq, blockId_dict]
+  · simp [BlockIdS.from_dict, BlockIdS.init_dyn, dictGet?, List.lookup, kWorkchain, kShard, kSeqno, asInt?]
+
+example : Block.from_dict (.obj none [(kWorkchain, .int (-1)), (kShard, .int 5), (kSeqno, .int 7), (kRootHash, .hex [1, 2]), (kFileHash, .hex [3])]) =
+    some ⟨-1, 5, 7, [1, 2], [3]⟩ ∧
+    Block.from_dict (.obj none [(kWorkchain, .int (-1)), (kShard, .int 5), (kSeqno, .int 7), (kRootHash, .hex [1, 2])]) = none := by decide
+
 end SrcEngine
 
 /-! ### The PARSER regenerated from source (Generated/TlEngine.lean: `deserialize`, `deserialize_loop1/2/3`, `deserialize_rest1`)
